@@ -84,3 +84,10 @@ func (c *Clock) State() (kind string, deadline time.Time, alsoArmed bool) {
 	}
 	return "Idle", time.Time{}, false
 }
+
+// Raw returns the armed deadline (if armed) and whether a fire is pending in the channel.
+func (c *Clock) Raw() (armed bool, deadline time.Time, pending bool) {
+	c.mu.Lock()
+	defer c.mu.Unlock()
+	return c.armed, c.deadline, len(c.ch) > 0
+}
